@@ -27,7 +27,7 @@ AGENT_PATH = '/org/ietf/dtn/udpcl/Agent'
 IFACE = 'org.ietf.dtn.udpcl.Agent'
 S_ADDR = ('10.0.0.1', 4556)
 R_ADDR = ('10.0.0.2', 4556)
-P2_ADDR = ('10.0.0.3', 4556)
+P2_ADDR = ('10.0.0.1', 4557)             # a second peer on the sender's host (same address, other port)
 
 _CUR_NET = [None]
 _INJECTED = False
@@ -565,7 +565,7 @@ def scenarios(tier):
                         liveness=False, max_states=300000, weight=20))
     for first in range(11):
         out.append(dict(name='reasm-mixed/first-%s' % ALPHA[first][0], kind='graph',
-                        params=dict(max_depth=depth - 1, letters=list(range(11)), prefix=[first]), dev_bound=0, use_snapshot=False,
+                        params=dict(max_depth=depth - 1, letters=list(range(11)), prefix=[first], mtu=16), dev_bound=0, use_snapshot=False,
                         liveness=False, max_states=300000, weight=20))
     return out
 
@@ -575,6 +575,7 @@ ASSUMPTIONS = [
     'sizing: bundle lengths 2..70, 250..262, 65535/65536 (65530..65541 thorough); a bundle of exactly the MTU may be segmented',
     'reassembly: duplicates may yield a second complete copy but never a partial or corrupt one; histories of at most 4-6 datagrams',
     'ECN marking / feedback switched off in these scenarios (configuration)',
+    'reassembly: the second peer shares the host address of the first (other UDP port); in the mixed histories the receiver itself is configured with a sending MTU (16) smaller than the datagrams it receives',
 ]
 
 RULE = ('(a) finite (length, MTU, transfer-id width) grid on the real send path, every datagram decoded by an independent '
